@@ -110,8 +110,8 @@ class TAlignModel(TSpec):
 
 
 class _TAlignModelCase(TSpec):
-    def __init__(self, kind, multi):
-        self.kind, self.multi = kind, multi
+    def __init__(self, kind, multi, n_templates=None):
+        self.kind, self.multi, self.n_templates = kind, multi, n_templates
         self.value = kind + (" (several candidates)" if multi else "")
 
     def fresh(self, name, path):
@@ -122,7 +122,12 @@ class _TAlignModelCase(TSpec):
         s = tuple(Sym(z3.Int(f"{name}_box_{a}")) for a in range(3))
         for x in s:
             path.assume(x >= 1)
-        if self.multi:
+        if self.multi and self.n_templates is not None:
+            nt, nr = self.n_templates, Sym(z3.Int(f"{name}_K"))      # the templates are given: T is their number
+            path.assume(nr >= 1)
+            path.assume(nr * nt > 1)
+            lead = (nr * nt,)
+        elif self.multi:
             nt, nr = Sym(z3.Int(f"{name}_T")), Sym(z3.Int(f"{name}_K"))
             path.assume(nt >= 1)
             path.assume(nr >= 1)
@@ -295,8 +300,13 @@ class _TModelFactoryCase(TSpec):
         multi = self.multi
 
         def factory(template, mask=None, **kw):
-            m = _TAlignModelCase(kind, multi).fresh(name + "_model", path)
-            s = tuple(template.shape)
+            if isinstance(template, (list, tuple)):
+                # a list of templates: the model holds exactly these (T = len(list)), boxes of the first one's shape
+                m = _TAlignModelCase(kind, multi, n_templates=len(template) if multi else None).fresh(name + "_model", path)
+                s = tuple(template[0].shape)
+            else:
+                m = _TAlignModelCase(kind, multi).fresh(name + "_model", path)
+                s = tuple(template.shape)
             for a in range(3):
                 path.assume(V.compare("==", m.attrs["_template"].shape[a], s[a]))
             return m
